@@ -22,7 +22,7 @@ use p3_batch_stark::ProverData;
 use p3_circuit::Circuit;
 use p3_circuit_prover::batch_stark_prover::{BatchStarkProver, CircuitProverData, TablePacking};
 use p3_circuit_prover::common::get_airs_and_degrees_with_prep;
-use p3_circuit_prover::config::{self, BabyBearConfig};
+use p3_circuit_prover::config::BabyBearConfig;
 use p3_circuit_prover::ConstraintProfile;
 use p3_field::{PrimeCharacteristicRing, PrimeField64};
 use vpcore::serde_json::{Value, json};
@@ -44,7 +44,7 @@ fn debug_lookup_check(circuit: &Circuit<F>, pubs: &[F], privs: &[F]) -> Result<(
     r.set_private_inputs(privs).map_err(|e| format!("run: {e:?}"))?;
     let traces = r.run().map_err(|e| format!("run: {e:?}"))?;
     let res = quiet_catch(|| {
-        let cfg = config::baby_bear();
+        let cfg = vpe1::accept::fast_baby_bear();
         let (ad, prim, np) = get_airs_and_degrees_with_prep::<BabyBearConfig, _, 1>(circuit, &TablePacking::default(), &[], &[], ConstraintProfile::Standard).map_err(|e| format!("prep: {e:?}"))?;
         let (airs, degs): (Vec<_>, Vec<usize>) = ad.into_iter().unzip();
         let pd = ProverData::from_airs_and_degrees(&cfg, &airs, &degs);
